@@ -5,6 +5,11 @@
 //   P <fid> <pgn> <datalen> <data hex> <args...>       -> "k<fid> P <ret> <outputs...>"       (data may be longer than datalen: garbage beyond the payload)
 //   R <sfid> <pfid> <n> <n setter args...> <parser args...>
 //                                                      -> "k<sfid>,<pfid> S ... | P ..."      (setter on a fresh message, then the parser on that message)
+//   A <setter> <append> <header parser|-> <record parser|-> <nh> <nh header args> <k> <n> <n*k record args> <nidx>
+//                                                      -> "k<setter>,<append> A <steps> S ... [| H P ...] [| I<i> P ...]*"
+//      repeated-record PGNs: setter, then n calls of the append function; <steps> has per append "1+" (accepted), "0=" (refused, message
+//      unchanged: PGN, priority, destination, length, payload) or "0!" (refused but changed), "-" for n = 0; then the header parser and the
+//      record parser for the indices 0..nidx-1
 // arguments and outputs:  i<decimal>  d<16 hex digits of the IEEE double | nan>  t<hex of the text | ->  l<comma separated integers | ->
 // Every message buffer is pre-filled with 0x5A, so bytes beyond DataLen are garbage the parsers must not use.
 #include "hcommon.h"
@@ -90,6 +95,40 @@ int main() {
           std::string s1 = show_msg(M);
           if (call_fn(fid_of_name(t[2]), b, M, o2)) res = "k" + t[1] + "," + t[2] + " " + s1 + " | P" + o2; else res = "badcase";
         } else res = "badcase";
+      }
+    } else if (t[0] == "A" && t.size() >= 9) {
+      tN2kMsg M; fresh(M);
+      size_t pos = 5; size_t nh = (size_t)atoi(t[pos++].c_str());
+      if (t.size() < pos + nh + 3) res = "badcase";
+      else {
+        std::vector<std::string> h(t.begin() + pos, t.begin() + pos + nh); pos += nh;
+        size_t k = (size_t)atoi(t[pos++].c_str()), n = (size_t)atoi(t[pos++].c_str());
+        std::string o;
+        if (t.size() != pos + n * k + 1 || !call_fn(fid_of_name(t[1]), h, M, o)) res = "badcase";
+        else {
+          std::string steps; bool ok = true;
+          for (size_t i = 0; i < n && ok; i++) {
+            std::vector<std::string> a(t.begin() + pos + i * k, t.begin() + pos + (i + 1) * k);
+            tN2kMsg B = M; std::string r;
+            ok = call_fn(fid_of_name(t[2]), a, M, r);
+            if (r == " 1") steps += "1+";
+            else {
+              bool same = B.PGN == M.PGN && B.Priority == M.Priority && B.Destination == M.Destination && B.DataLen == M.DataLen &&
+                          (M.DataLen <= 0 || memcmp(B.Data, M.Data, (size_t)M.DataLen) == 0);
+              steps += same ? "0=" : "0!";
+            }
+          }
+          if (n == 0) steps = "-";
+          size_t nidx = (size_t)atoi(t[pos + n * k].c_str());
+          res = "k" + t[1] + "," + t[2] + " A " + steps + " " + show_msg(M);
+          if (ok && t[3] != "-") { std::string r; std::vector<std::string> none; ok = call_fn(fid_of_name(t[3]), none, M, r); res += " | H P" + r; }
+          for (size_t i = 0; i < nidx && ok && t[4] != "-"; i++) {
+            char ib[24]; snprintf(ib, 24, "i%u", (unsigned)i); std::vector<std::string> a(1, ib); std::string r;
+            ok = call_fn(fid_of_name(t[4]), a, M, r);
+            snprintf(ib, 24, " | I%u P", (unsigned)i); res += ib + r;
+          }
+          if (!ok) res = "badcase";
+        }
       }
     } else res = "badcase";
     free_all();
